@@ -143,20 +143,30 @@ def harness_replay(fixed=None, render=None):
         if extra is None:
             return {"reproduced": False, "note": "counterexample not renderable as real input"}
         defs = ["-D%s=%s" % (k, v) for k, v in l.defs.items()] + ["-DHARNESS_FILE=\"%s\"" % l.src, "-DENTRY=" + l.entry]
+        defs += ["-DKF_%s=1" % k["id"] for k in vf.load_known() if k["state"] == "open"]
+        if l.gen_h is not None:
+            defs += ["-include", os.path.join(vf.lemma_dir(l), "gen.h")]
         tag = hashlib.sha1((l.name + str(sorted(l.defs.items()))).encode()).hexdigest()[:10]
         ok, path, log = build(os.path.join(vf.VERIF, "replay", "native_main.c"), "h_" + tag, defs)
         if not ok:
             return {"reproduced": False, "error": "native build failed: " + log[-800:]}
+        env = dict(os.environ)
+        envtxt = ""
+        for k in list(extra):
+            if k.startswith("__env__"):
+                env[k[7:]] = extra[k]
+                envtxt += "%s='%s' " % (k[7:], extra[k])
+                del extra[k]
         args = ["%s=%s" % (k, v) for k, v in ghosts.items()] + ["%s=%s" % (k, v) for k, v in extra.items()]
         cmd = [path] + args
         try:
-            p = subprocess.run(cmd, stdout=subprocess.PIPE, stderr=subprocess.STDOUT, timeout=20)
+            p = subprocess.run(cmd, stdout=subprocess.PIPE, stderr=subprocess.STDOUT, timeout=20, env=env)
             out = p.stdout.decode("latin-1"); rc = p.returncode
         except subprocess.TimeoutExpired:
             out, rc = "TIMEOUT (hang)", -14
         bad = ("VIOLATED" in out) or rc < 0
         if rc == 77:
             bad = False
-        return {"reproduced": bad, "cmd": " ".join("'%s'" % c for c in cmd), "rc": rc, "output": out[-3000:],
+        return {"reproduced": bad, "cmd": envtxt + " ".join("'%s'" % c for c in cmd), "rc": rc, "output": out[-3000:],
                 "fail_regex": "VIOLATED|SIGNAL", "ghosts": ghosts, "text": extra}
     return fn
